@@ -1,4 +1,4 @@
-use self::expression::expression;
+use self::expression::{expression, starts_expression};
 use self::statement::outer_statement;
 use std::collections::{BTreeMap, HashMap, HashSet};
 use std::fmt::{Debug, Display};
@@ -833,11 +833,11 @@ fn assignable_call<'t>(ctx: Context<'t>, callee: Assignable) -> ParseResult<'t, 
 
             // Parse a single argument.
             _ => {
-                let (_ctx, expr) = match (expression(ctx), primer) {
-                    (Err(_), true) => break,
-                    (Ok(res), _) => res,
-                    (Err(errs), _) => return Err(errs),
-                };
+                // A `'`-call has no closing token - its arguments end where no expression starts.
+                if primer && !starts_expression(ctx.token()) {
+                    break;
+                }
+                let (_ctx, expr) = expression(ctx)?;
                 ctx = _ctx; // assign to outer
                 args.push(expr);
 
@@ -899,11 +899,21 @@ fn assignable_dot_or_variant<'t>(
     ctx: Context<'t>,
     accessed: Assignable,
 ) -> ParseResult<'t, Assignable> {
-    // TODO(ed): It might be possible to remove this branch?
-    // TODO(ed): We throw away error information here...
-    match assignable_variant(ctx, accessed.clone()) {
-        Ok(variant) => Ok(variant),
-        Err(_) => assignable_dot(ctx, accessed),
+    // `Name.Variant` is an enum variant, anything else a field access - the names tell. Once that
+    // is decided the errors are the ones of that form.
+    let names_an_enum = match &accessed.kind {
+        AssignableKind::Read(name) | AssignableKind::Access(_, name) => is_capitalized(&name.name),
+        _ => false,
+    };
+    let is_variant = names_an_enum
+        && match &ctx.tokens_lookahead::<2>() {
+            [T::Dot, T::Identifier(variant)] => is_capitalized(variant),
+            _ => false,
+        };
+    if is_variant {
+        assignable_variant(ctx, accessed)
+    } else {
+        assignable_dot(ctx, accessed)
     }
 }
 
@@ -941,9 +951,11 @@ fn assignable_variant<'t>(ctx: Context<'t>, accessed: Assignable) -> ParseResult
         raise_syntax_error!(ctx, "Expected an identifier after '.' in variant");
     };
 
-    let (ctx, value) = match expression(ctx) {
-        Ok(res) => res,
-        Err(_) => (ctx, Expression::new(span, ExpressionKind::Nil)),
+    // The value is optional - `Maybe.None`.
+    let (ctx, value) = if starts_expression(ctx.token()) {
+        expression(ctx)?
+    } else {
+        (ctx, Expression::new(span, ExpressionKind::Nil))
     };
 
     use AssignableKind::Variant;
